@@ -26,6 +26,7 @@ fn main() {
             let mut out = util::Out::create(&args[4]);
             match comp {
                 "lru" => seq::lru::replay(&behaviours, &mut out),
+                "kb" => seq::kb::replay(&behaviours, &mut out),
                 _ => Err(format!("unknown component {comp}")),
             }
         }
@@ -35,6 +36,7 @@ fn main() {
             let mut out = util::Out::create(&args[5]);
             match comp {
                 "lru" => seq::lru::drive(seed, n, &mut out),
+                "kb" => seq::kb::drive(seed, n, &mut out),
                 _ => Err(format!("unknown component {comp}")),
             }
         }
